@@ -184,7 +184,7 @@ class SpscEngine(Engine):
     name = "spsc"
 
     def n_cases(self, tier):
-        return 2500 if tier == "quick" else 60000
+        return 1000 if tier == "quick" else 60000
 
     # ------------------------------------------------------------------ cases
     def corpus(self):
